@@ -361,7 +361,7 @@ def _extract_and_filter_chrom(fasta, chrom, in_window, out_window,
         
 		values = values[:values.shape[0] // in_window * in_window]
 		values = values.reshape(-1, in_window)
-		values = values[:, left_flank:-right_flank]
+		values = values[:, left_flank:in_window-right_flank]
 		values = numpy.nansum(values, axis=-1)
 
 		idxs = idxs & (values <= signal_threshold)
